@@ -5,6 +5,20 @@ root='/verif'
 parts=root+'/tools/design_parts'
 head=open(parts+'/head.md').read()
 body=open(parts+'/body.md').read()
+# section 4.1: the further families per property, taken from the checks' own rule texts (engine/zz/checks/common.go ruleExtra)
+import re
+src=open(root+'/engine/zz/checks/common.go').read()
+m=re.search(r'var ruleExtra = map\[string\]string\{(.*?)\n\}', src, re.S)
+extra=[]
+if m:
+    for mm in re.finditer(r'"(C\d\d)":\s*"((?:[^"\\]|\\.)*)",', m.group(1)):
+        extra.append("| %s | %s |" % (mm.group(1), mm.group(2).replace('|','/')))
+sec41 = "### 4.1 Families added in session 4 (rounds 5-7 of §8), per property\n\nThese are appended to the `Rule` text of each evidence file (`FURTHER FAMILIES`).\n\n| id | further families |\n|---|---|\n" + "\n".join(extra) + "\n\n"
+marker = "---------------------------------------------------------------------------------------------------\n\n## 5. What the checks found"
+if marker in body:
+    body = body.replace(marker, sec41 + marker, 1)
+else:
+    body = body.replace("## 5. What the checks found", sec41 + "## 5. What the checks found", 1)
 appA=open(parts+'/appA.md').read()
 app=open(parts+'/app.md').read()
 rows=[]
@@ -36,14 +50,21 @@ Checks that missed a change at first were strengthened (noted below the table); 
 |---|---|---|---|---|
 """ + "\n".join(rows) + """
 
-Four rounds were run (20 + 20 + 16 + 20 changes; seeds `Cxx`, `R2-Cxx`, `R3-Cxx`, `R4-Cxx`; from the second round on the
-sub-agent was told, in one line each, the earlier ideas for the same property and asked for a different code site and
+Seven rounds were run (20 + 20 + 16 + 20 + 20 + 20 + 20 changes; seeds `Cxx`, `R2-Cxx` ... `R7-Cxx`; from the second round
+on the sub-agent was told, in one line each, the earlier ideas for the same property and asked for a different code site and
 mechanism; round 3 has 16 seeds because four sub-agents did not deliver a change that could be confirmed). The last column
-is the outcome of the final matrix run (every check against every seed, quick tier, after all strengthening). **Every one
-of the 76 changes is reported by the check of the property it breaks**; most are also reported by neighbouring checks.
-First-time results, before strengthening: round 1 — 14 of 20 caught by their own check; round 2 — 8 of 20; round 3 —
-4 of 16 by their own check, 3 by no check at all (R3-C09, R3-C11, R3-C16) and one (R3-C14) made the harness itself fail;
-round 4 — 9 of 20 by their own check, 5 by no check at all (R4-C08, R4-C10, R4-C11, R4-C12, R4-C20).
+is the outcome of the matrix runs (`bin/seedmatrix`: checks against a scratch worktree with the patch, quick tier, after
+all strengthening; `seeded/matrix.json`). **Every one of the 136 changes is reported by the check of the property it
+breaks**; most are also reported by neighbouring checks. First-time results, before strengthening (own check / any check):
+round 1 — 14 / 20 of 20; round 2 — 8 of 20; round 3 — 4 of 16 (3 by no check, one made the harness itself fail); round 4 —
+9 of 20 (5 by no check: R4-C08, R4-C10, R4-C11, R4-C12, R4-C20); round 5 — 7 / 14 of 20 (none: R5-C03, R5-C05, R5-C13,
+R5-C14, R5-C17, R5-C20); round 6 — 9 / 16 of 20 (none: R6-C02, R6-C06, R6-C11, R6-C14; four of the nine own-check hits
+were families written *before* the round as a guess at what would come: more than 1024 replies per flush, a redirected
+request that stalls, the 6 MiB limit, duplicate whitelist lines); round 7 — see `seeded/matrix.json` (families written
+before the round that hit: several connections per node was not among them; the C05 two-byte enumeration, C07 CRLF values,
+C12 odd requests and the C02 cut enumeration were). Three seeds of round 6 (R6-C03, R6-C15, R6-C19) are the same change
+(ring buffers returned to the pool un-reset) handed in for three different properties, R7-C20 repeats R5-C14 and R7-C04
+repeats C05: they are kept because each is judged by a different check.
 
 Strengthening triggered by first-time misses (no check was loosened, none of these families fires on the
 unchanged tree):
@@ -79,7 +100,20 @@ unchanged tree):
   redirect line not first in its read; C14 history-dependent INFO answers; C16 connection lost after the timeout
   (`Fault.Gate`); C17 near-miss names; **C20 ban-recovery with the real health monitor as a cooperative thread** (§3.1a) —
   before, `go p.monitor()` was simply dropped and no change to the monitor could be seen.
-
+* round 5 — a genuine defect found while writing the C16 late-redirect family (§5.1, fix 8c1e8ec); C02 pipelined batches;
+  `BigSlowRecycle` (64 KiB+ replies parked for a slow reader while request objects are recycled: C02, C03, C19); C05 slot
+  assigned to single-key requests and scripts; C07 pipelined pairs; C08 large requests around the ring's growth points; C09
+  flood + slow reader (writable readiness must be used); C10 production-size slow backend; C11 error first on a
+  handshaking connection; C12 odd well-formed requests; C13 local reply / QUIT behind a redirect, C01 redirect kinds in the
+  pipeline alphabet; C14 all 720 line orders; C17 argument counts around narrow-counter wrap points; C20 traffic mixes.
+* round 6 — number sweeps (C06, C07); C11 long error lines; C13 concurrent redirects; C14 small clusters; C09 oversize
+  merged MGET followed by local requests; C08 streams of empty arguments; C04 replica re-parented / C20 role swap;
+  connection-died-mid-message families for C03, C15, C19; `BigBatch` tail requests (what a big flush leaves behind).
+* round 7 — `BusyTicks` (C16 under load); several connections per node (C13, C15, C16); close-with-backlog + the per-round
+  syscall spin guard (C09, C15); C18 connections before and after the last change; C14 end-to-end under load; C10 writes
+  with replicas (node model redirects writes at replicas); C11 error-then-sibling-deadline; C08 request larger than the read
+  buffer with tail arguments; C06 / C19 slow-backend-overflow and many-medium-replies; C04 high-byte key for every slot; C03
+  closed-with-unwritten-fragment; C01 handshake in pieces; C17 every reply shape at the limit; C20 replicas listed first.
 """ + own + "\n" + e3
 open(root+'/DESIGN.md','w').write(head+body+sec8+appA+app)
 print("DESIGN.md written,", len(open(root+'/DESIGN.md').read().splitlines()), "lines")
